@@ -8,7 +8,8 @@ TRUSTED = [
     "Model/RRuleStr.lean is a hand model of rrule.__str__ and of _rrulestr._parse_rfc/_parse_rfc_rrule/_handle_* at the level of the keyword arguments handed to rrule()/rruleset; tied by the rrs.str / rrs.parse correspondence ops (the implementation's constructor calls are recorded in-process)",
     "date values go through parser.parse in the real code (C02); the model covers only the compact form YYYYMMDDTHHMMSS[Z] that __str__ emits — other spellings are compared on the implementation only",
     "rrule(**kwargs) itself is C01's constructor; 'same kwargs => same occurrences' is determinism of C01's model",
-    "TZID / tzids / tzinfos / ignoretz resolution is option plumbing: tied by the oracle on the implementation only (no theorem)",
+    "TZID resolution is modelled (tzidOf: name table from the text as written, case-insensitive, after the optional unfold; tzids lookup) and compared in the correspondence through a tzids callable that remembers the looked-up name; no theorem is stated about it; what ignoretz / tzinfos do inside parser.parse is C02",
+    "str_roundtrip_rule takes the two date values over unchanged (backArgs): parser.parse reading the compact text back is C02, tied by correspondence and oracle only; compact_roundtrip is about the driver's display helper",
     "the unfold loop (ICal.unfold, shared with C17) and RDATE/EXDATE/DTSTART parameters are in the model and the correspondence but no theorem is stated about them; multi_line_builds_set is for parameter-less lines joined by newlines without unfold",
 ]
 ASSUMPTIONS = [
@@ -64,6 +65,9 @@ def gen_kwargs(rng, small_years=True):
     if rng.random() < 0.15: kw["byhour"] = some(list(range(24)))
     if rng.random() < 0.15: kw["byminute"] = some(list(range(60)))
     if rng.random() < 0.15: kw["bysecond"] = some(list(range(60)))
+    if rng.random() < 0.08:
+        # an EMPTY sequence for a BY argument (C01's space has them): recorded as () in _original_rule, printed as nothing
+        kw[rng.choice(["bymonth", "bymonthday", "byyearday", "byweekno", "byweekday", "byeaster", "bysetpos", "byhour", "byminute", "bysecond"])] = rng.choice([(), []])
     r2 = rng.random()
     if r2 < 0.4:
         kw["count"] = rng.randint(0, 6)
@@ -110,8 +114,20 @@ def cdate(d):
     if not isinstance(d, datetime.datetime):
         return "o"
     po = PO.get(id(d))
-    return "c:%d,%d,%d,%d,%d,%d,%d%s" % (d.year, d.month, d.day, d.hour, d.minute, d.second, int(d.tzinfo is not None),
-                                         "|?" if po is None else "|i%dt%d" % po)
+    mark = "+tzid=" + hexs(d.tzinfo.looked_up) if isinstance(d.tzinfo, MarkTz) else ""
+    return "c:%d,%d,%d,%d,%d,%d,%d%s%s" % (d.year, d.month, d.day, d.hour, d.minute, d.second, int(d.tzinfo is not None),
+                                           "|?" if po is None else "|i%dt%d" % po, mark)
+
+class MarkTz(datetime.tzinfo):
+    """the zone the correspondence's `tzids` callable returns: it remembers the NAME it was looked up with"""
+    def __init__(self, name):
+        self.looked_up = name
+    def utcoffset(self, dt): return datetime.timedelta(hours=1)
+    def dst(self, dt): return datetime.timedelta(0)
+    def tzname(self, dt): return "mark"
+
+def mark_tz(name):
+    return MarkTz(name)
 
 def cargs(kw):
     def wl(v):
@@ -155,6 +171,16 @@ def impl_parse(text, **opts):
         po_reg[id(d)] = (int(bool(kw.get("ignoretz"))), int(kw.get("tzinfos") is not None and kw.get("tzinfos") is opts.get("tzinfos")))
         return d
     P.parse = rec_parse
+    # _parse_date_value may replace the parsed value (TZID): the returned values inherit the options of their parse calls
+    orig_pdv = R._rrulestr._parse_date_value
+    def rec_pdv(self, *a, **kw):
+        n0 = len(keep)
+        out = orig_pdv(self, *a, **kw)
+        for d, src in zip(out, keep[n0:n0 + len(out)]):
+            if id(d) not in po_reg:
+                keep.append(d); po_reg[id(d)] = po_reg[id(src)]
+        return out
+    R._rrulestr._parse_date_value = rec_pdv
     raised = None
     obj = None
     try:
@@ -168,6 +194,7 @@ def impl_parse(text, **opts):
         raised = "err " + ("ValueError" if k == "ParserError" else k)
     finally:
         P.parse = orig_parse
+        R._rrulestr._parse_date_value = orig_pdv
         for (cls, name), orig in saved.items():
             setattr(cls, name, orig)
     if raised is not None:
@@ -253,14 +280,80 @@ def spell(rng, text, level):
         out.append(l)
     return "\n".join(out)
 
-def fold(rng, text):
+def rcase(rng, w):
+    return "".join(c.lower() if rng.random() < 0.5 else c.upper() for c in w)
+
+def spell_date_lines(rng, text, tzid=None, level=2):
+    """RFC spellings of the DTSTART / EXDATE / RDATE lines: letter case of the property and parameter names, an optional
+    VALUE=DATE-TIME parameter before or after TZID, TZID names in mixed case (kept as written); with tzid=None only
+    meaning-preserving changes are made"""
     out = []
     for l in text.split("\n"):
-        if len(l) > 10 and rng.random() < 0.6:
-            k = rng.randint(2, len(l) - 2)
-            l = l[:k] + "\r\n " + l[k:]
+        head_, sep, val = l.partition(":")
+        name = head_.split(";")[0].upper()
+        if sep and name in ("DTSTART", "EXDATE", "RDATE") and ";" not in head_:
+            parms = []
+            if tzid and name != "RDATE":
+                parms.append((rcase(rng, "TZID") if level > 1 else "TZID") + "=" + tzid)
+            if rng.random() < 0.4:
+                parms.insert(rng.randint(0, len(parms)), (rcase(rng, "VALUE") if level > 1 else "VALUE") + "=" + (rcase(rng, "DATE-TIME") if level > 1 else "DATE-TIME"))
+            l = (rcase(rng, name) if level > 1 else name) + "".join(";" + p for p in parms) + ":" + (val.lower() if level > 1 and rng.random() < 0.3 else val)
         out.append(l)
-    return "\r\n".join(out)
+    return "\n".join(out)
+
+def fold(rng, text, exotic=False):
+    """RFC 5545 line folding of a text whose logical lines are separated by \n: 0-4 folds per logical line (so several
+    CONSECUTIVE continuation lines), folds right after ; , = : and inside values, continuation lines of a single
+    character, \n / \r\n / mixed line breaks, blank and whitespace-only lines between logical lines and at the end.
+    The result unfolds to the same logical lines (rstrip before the test; a continuation extends the last KEPT line).
+    exotic=True (correspondence only: the meaning may change, the model must still agree) adds bare \r breaks, blank lines
+    between a line and its continuation, trailing blanks on physical lines, a first line that begins with a space,
+    tab-started lines and empty first pieces."""
+    style = rng.choice(["\n", "\r\n", "mixed", "mixed"] + (["\r"] if exotic else []))
+    def brk():
+        return rng.choice(["\n", "\r\n"] + (["\r"] if exotic else [])) if style == "mixed" else style
+    out = []
+    logical = [l.rstrip("\r") for l in text.split("\n")]
+    for li, l in enumerate(logical):
+        nf = rng.choice([0, 1, 1, 2, 2, 3, 3, 4]) if len(l) > 1 else 0
+        cuts = set()
+        seps = [i + 1 for i, c in enumerate(l) if c in ";,=:" and i + 1 < len(l)]
+        for _ in range(nf):
+            r = rng.random()
+            if seps and r < 0.4:
+                cuts.add(rng.choice(seps))                  # right after a separator
+            elif r < 0.55:
+                cuts.add(len(l) - 1)                        # the last continuation line is one character
+            elif r < 0.7 and len(l) > 2:
+                k = rng.randint(1, len(l) - 2); cuts.update([k, k + 1])    # a one-character continuation in the middle
+            else:
+                cuts.add(rng.randint(1, len(l) - 1))        # anywhere, inside names and values
+        if exotic and rng.random() < 0.05:
+            cuts.add(0)                                     # empty first piece
+        pieces, prev = [], 0
+        for k in sorted(cuts):
+            pieces.append(l[prev:k]); prev = k
+        pieces.append(l[prev:])
+        phys = pieces[0]
+        for pc in pieces[1:]:
+            if exotic and rng.random() < 0.1:
+                phys += rng.choice([" ", "\t", "  "])      # trailing blanks stay inside the unfolded line
+            phys += brk()
+            if exotic and rng.random() < 0.1:
+                phys += rng.choice(["", " ", "\t"]) + brk()  # blank line between a line and its continuation
+            phys += " " + pc
+        out.append(phys)
+        if li + 1 < len(logical):
+            out.append(brk())
+            if rng.random() < 0.15:
+                out.append(rng.choice(["", " ", "  ", "\t"]) + brk())     # blank / whitespace-only line between logical lines
+    res = "".join(out) + rng.choice(["", "", brk(), brk() + brk(), brk() + " " + brk(), brk() + "\t" + brk() + brk()])
+    if exotic:
+        r = rng.random()
+        if r < 0.06: res = " " + res                       # the first line begins with a space: not a continuation
+        elif r < 0.10: res = brk() + " " + res.lstrip()    # … also after a leading blank line
+        elif r < 0.14: res = res.replace(brk() + " ", brk() + "\t", 1)    # a tab does not continue a line
+    return res
 
 MALFORMED = ["FREQ=DAILY;FOO=1", "FREQ=DAILY;INTERVAL=x", "FREQ=NEVER", "FREQ=DAILY;BYDAY=XX", "FREQ=DAILY;BYDAY=", "FREQ=DAILY;BYDAY=1", "FREQ=DAILY;WKST=8",
              "FREQ=DAILY;BYMONTH=1,,2", "FREQ=DAILY;COUNT", "FREQ=DAILY;COUNT=1=2", "FREQ=DAILY;;COUNT=2", "X:FREQ=DAILY", "RRULE:FREQ=DAILY:COUNT=2",
@@ -307,7 +400,11 @@ def path_variants(rng, s):
                 (z(both + "\nEXRULE:FREQ=WEEKLY;COUNT=2;UNTIL=19971224T000000"), optset({})),
                 (z(rline + "\nRRULE:FREQ=YEARLY;COUNT=2"), optset({"dtstart": KW_DTSTART})),
                 (z(both), optset({"compatible": True})),
-                (fold(rng, z(rline)), optset({"unfold": True, "dtstart": KW_DTSTART}))]
+                (fold(rng, z(rline), rng.random() < 0.4), optset({"unfold": True, "dtstart": KW_DTSTART})),
+                (fold(rng, z(both), rng.random() < 0.4), optset({"unfold": True})),
+                (fold(rng, z(both), rng.random() < 0.4), optset({"compatible": True})),
+                (fold(rng, z(both + "\nRDATE:19970910T090000,19970911T090000\nEXDATE:19970903T090000"), rng.random() < 0.4), optset({"unfold": True})),
+                (fold(rng, z(rline[6:]), rng.random() < 0.4), optset({"unfold": True, "dtstart": KW_DTSTART}))]
     return out
 
 # ------------------------------------------------------------------ correspondence
@@ -340,8 +437,10 @@ def correspondence(ctx):
         cases.append((s, {}))
         v = spell(rng, s, 2)
         cases.append((v, {}))
-        if rng.random() < 0.3:
-            cases.append((fold(rng, v), {"unfold": True}))
+        if rng.random() < 0.5:
+            cases.append((fold(rng, v, rng.random() < 0.5), {"unfold": True}))
+        if rng.random() < 0.15:
+            cases.append((fold(rng, s, rng.random() < 0.5), {"compatible": True}))
         if rng.random() < 0.2:
             cases.append((s, {"forceset": True}))
         if rng.random() < 0.2:
@@ -354,6 +453,21 @@ def correspondence(ctx):
             # single edits
             k = rng.randint(0, len(s))
             cases.append((s[:k] + rng.choice(list(";=,:+-0123456789 \nMOXZ(") + ["BYDAY=", "FREQ="]) + s[k + rng.randint(0, 1):], {}))
+    # DTSTART / EXDATE lines with TZID parameters in every spelling (the name table, case, parameter order, folding)
+    for r, s, _ in rules:
+        if rng.random() < 0.5:
+            name = rng.choice(["Foo/Bar", "America/New_York", "x", "UTC", "a b", "Z=1", "tzid=inner"])
+            t = s + rng.choice(["", "\nEXDATE:19970903T090000", "\nEXDATE:19970903T090000,19970904T090000\nRDATE:19970910T090000"])
+            t = spell_date_lines(rng, t, tzid=name)
+            o = rng.choice([{}, {"forceset": True}, {"unfold": True}, {"compatible": True}])
+            if "unfold" in o or "compatible" in o:
+                t = fold(rng, t, rng.random() < 0.3)
+            if " " in name and not ("unfold" in o or "compatible" in o):
+                continue
+            cases.append((t, o))
+            if rng.random() < 0.3:
+                # a second, different TZID in the same text / an empty name / a parameter after TZID
+                cases.append((t.replace(":", ";X=1:", 1) if rng.random() < 0.5 else t + "\nEXDATE;TZID=Other/Zone:19970905T090000", o))
     # the same rule through every code path of _parse_rfc, with the pass-through options and Z spellings
     for r, s, _ in rules:
         if rng.random() < 0.7:
@@ -361,8 +475,9 @@ def correspondence(ctx):
     cases += [(m, {}) for m in MALFORMED] + [(m, {"forceset": True}) for m in MALFORMED[:12]] + [(m, {"unfold": True}) for m in MALFORMED[:12]]
     reqs, impl = [], []
     for text, opts in cases:
-        if not all(ord(c) < 128 for c in text) or "TZID" in text.upper():
+        if not all(ord(c) < 128 for c in text):
             continue
+        opts = dict(opts, tzids=mark_tz)              # every name that reaches the tzids lookup comes back as a marked zone
         flags = "%d%d%d%d%d%d%d" % (int(opts.get("unfold", False)), int(opts.get("forceset", False)), int(opts.get("compatible", False)),
                                     int("dtstart" in opts), int(bool(opts.get("ignoretz"))), int(opts.get("tzinfos") is not None), int(bool(opts.get("cache"))))
         try:
@@ -376,13 +491,18 @@ def correspondence(ctx):
         g2 = g
         if isinstance(res, tuple) and res[0] == "raised":
             # rrule(**kwargs) rejected the arguments (C01's domain), but which arguments and options reached it is still compared
-            if g.startswith("ok") and not (" o" in g or "[o" in g or ",o" in g or "o+" in g) and e != g:
+            if res[1] != "err ValueError":
+                ctx.mismatch("rrs.parse", q, res[1] + " raised by rrule(**kwargs): only ValueError may leave rrulestr", g)
+            elif g.startswith("ok") and not (" o" in g or "[o" in g or ",o" in g or "o+" in g) and e != g:
                 ctx.mismatch("rrs.parse", q, e + "   (then rrule() raised: " + res[1] + ")", g)
             else:
                 ctx.count("rejected_downstream_of_the_model")
             continue
         if isinstance(res, str) and res.startswith("err") and g.startswith("ok"):
-            # the model stops at the kwargs: rrule(**kwargs) / parser.parse(date) may still reject them (C01 / C02 domain)
+            # the model stops at the kwargs: rrule(**kwargs) / parser.parse(date) may still reject them (C01 / C02 domain) -
+            # but only with a ValueError (ParserError is one); any other kind is a disagreement with errors_are_ValueError
+            if res != "err ValueError":
+                ctx.mismatch("rrs.parse", q, res + " (the model accepts; downstream rejections must be ValueError)", g); continue
             ctx.count("rejected_downstream_of_the_model"); continue
         if g.startswith("err IndexError") and e.startswith("err"):
             pass
@@ -424,7 +544,7 @@ def oracle_sets(ctx):
         body = lines[1:]; rng.shuffle(body)
         txt = "\n".join([lines[0]] + body)
         opts = rng.choice([{}, {"forceset": True}, {"compatible": True}, {"unfold": True}])
-        if "unfold" in opts: txt = fold(rng, txt)
+        if "unfold" in opts or ("compatible" in opts and rng.random() < 0.7): txt = fold(rng, txt)
         ref = R.rruleset()
         ref.rrule(R.rrulestr(r1, dtstart=ds))
         if use_r2: ref.rrule(R.rrulestr(r2, dtstart=ds))
@@ -468,6 +588,8 @@ def option_scenarios(freq, ds, kw):
         "no-cache":   dict(suffix="", opts={}, zone=None),
     }
 
+FOLD = "\x00fold\x00"
+
 def run_option_case(ctx, R, freq, ds, kw, scen_name, scen, rng):
     """one rule, one option scenario, every applicable path; returns False when the scenario does not apply"""
     from dateutil import tz
@@ -486,11 +608,14 @@ def run_option_case(ctx, R, freq, ds, kw, scen_name, scen, rng):
     value = str(build(freq, ds, kw)).split("\n")[1][6:]
     if "until" in kw:
         value = value.replace("UNTIL=" + stamp(kw["until"]), "UNTIL=" + stamp(kw["until"]) + ("Z" if tzid else sfx))
-    dline = ("DTSTART;TZID=%s:%s" % (tzid, stamp(ds))) if tzid else ("DTSTART:" + stamp(ds) + sfx)
+    # with a TZID scenario the DTSTART and EXDATE lines get their TZID parameter (in a random spelling) further down
+    dline = ("DTSTART:" + stamp(ds)) if tzid else ("DTSTART:" + stamp(ds) + sfx)
     rd = [ds + datetime.timedelta(days=40, hours=1), ds + datetime.timedelta(days=41)]
     exd = [ds + datetime.timedelta(days=1)]
-    dsfx = "Z" if tzid else sfx
+    dsfx = "Z" if tzid else sfx            # RDATE takes no TZID parameter: UTC values there
     dzone = tz.UTC if tzid else zone
+    xsfx = "" if tzid else sfx             # EXDATE values: the TZID parameter gives the zone
+    xzone = zone
     if tzid and "ignoretz" in opts:
         return False
     second = "FREQ=YEARLY;COUNT=2"
@@ -506,7 +631,7 @@ def run_option_case(ctx, R, freq, ds, kw, scen_name, scen, rng):
     if not tzid:
         paths += [("bare-value+dtstart=", value, {"dtstart": eds}, want_rule, R.rrule),
                   ("RRULE-line+dtstart=", "RRULE:" + value, {"dtstart": eds}, want_rule, R.rrule),
-                  ("folded-RRULE-line+unfold+dtstart=", fold(rng, "RRULE:" + value), {"dtstart": eds, "unfold": True}, want_rule, R.rrule),
+                  ("folded-RRULE-line+unfold+dtstart=", FOLD + "RRULE:" + value, {"dtstart": eds, "unfold": True}, want_rule, R.rrule),
                   ("two-RRULE-lines+dtstart=", "RRULE:" + value + "\nRRULE:" + second, {"dtstart": eds},
                    set_of([("rrule", want_rule), ("rrule", rule2(eds))]), R.rruleset),
                   ("RRULE-line+forceset+dtstart=", "RRULE:" + value, {"dtstart": eds, "forceset": True}, set_of([("rrule", want_rule)]), R.rruleset)]
@@ -515,19 +640,28 @@ def run_option_case(ctx, R, freq, ds, kw, scen_name, scen, rng):
               ("DTSTART+RRULE, dtstart= overridden by the line", dline + "\nRRULE:" + value, {"dtstart": other}, want_rule, R.rrule),
               ("DTSTART+bare-value", dline + "\n" + value, {}, want_rule, R.rrule),
               ("DTSTART+RRULE+forceset", dline + "\nRRULE:" + value, {"forceset": True}, set_of([("rrule", want_rule)]), R.rruleset),
-              ("DTSTART+RRULE+unfold", fold(rng, dline + "\nRRULE:" + value), {"unfold": True}, want_rule, R.rrule),
+              ("DTSTART+RRULE+unfold", FOLD + dline + "\nRRULE:" + value, {"unfold": True}, want_rule, R.rrule),
               ("DTSTART+RRULE+RDATE", dline + "\nRRULE:" + value + "\nRDATE:" + ",".join(stamp(d) + dsfx for d in rd), {},
                set_of([("rrule", want_rule)] + [("rdate", d.replace(tzinfo=dzone)) for d in rd]), R.rruleset),
-              ("DTSTART+RRULE+EXDATE", dline + "\nRRULE:" + value + "\nEXDATE:" + ",".join(stamp(d) + dsfx for d in exd), {},
-               set_of([("rrule", want_rule)] + [("exdate", d.replace(tzinfo=dzone)) for d in exd]), R.rruleset),
+              ("DTSTART+RRULE+EXDATE", dline + "\nRRULE:" + value + "\nEXDATE:" + ",".join(stamp(d) + xsfx for d in exd), {},
+               set_of([("rrule", want_rule)] + [("exdate", d.replace(tzinfo=xzone)) for d in exd]), R.rruleset),
               ("DTSTART+2xRRULE", dline + "\nRRULE:" + value + "\nRRULE:" + second, {},
                set_of([("rrule", want_rule), ("rrule", rule2(eds))]), R.rruleset),
               ("DTSTART+RRULE+EXRULE", dline + "\nRRULE:" + value + "\nEXRULE:" + second, {},
                set_of([("rrule", want_rule), ("exrule", rule2(eds))]), R.rruleset),
-              ("DTSTART+RRULE+compatible", dline + "\nRRULE:" + value, {"compatible": True},
+              ("DTSTART+RRULE+RDATE+unfold", FOLD + dline + "\nRRULE:" + value + "\nRDATE:" + ",".join(stamp(d) + dsfx for d in rd), {"unfold": True},
+               set_of([("rrule", want_rule)] + [("rdate", d.replace(tzinfo=dzone)) for d in rd]), R.rruleset),
+              ("DTSTART+RRULE+compatible", FOLD + dline + "\nRRULE:" + value, {"compatible": True},
                set_of([("rrule", want_rule), ("rdate", eds)]), R.rruleset)]
     for name, txt, extra, expect, typ in paths:
         o = dict(opts); o.update(extra)
+        dofold = txt.startswith(FOLD)
+        txt = txt[len(FOLD):] if dofold else txt
+        # every RFC spelling of the date lines: property / parameter names in any letter case, VALUE=DATE-TIME before or
+        # after TZID, the TZID name as written; then (unfold / compatible) folded anywhere, also inside the parameters
+        txt = spell_date_lines(rng, txt, tzid=tzid, level=rng.choice([1, 2]))
+        if dofold:
+            txt = fold(rng, txt)
         shown = {k: (v.isoformat() if isinstance(v, datetime.datetime) else ("<callable>" if callable(v) else (sorted(v) if isinstance(v, dict) else v))) for k, v in o.items()}
         case = {"kind": "options", "scenario": scen_name, "path": name, "text": txt, "opts": shown,
                 "expect": {"freq": freq, "dtstart": ds.isoformat(), "kwargs": repr(kw)}}
@@ -565,6 +699,8 @@ def oracle_options(ctx):
         freq, ds, kw = gen_kwargs(rng, small_years=False)
         if kw.get("interval", 1) < 1:
             kw["interval"] = 1
+        # empty BY sequences cannot be spelled in text at all (D-C13-empty-by-list is met by the round-trip section)
+        kw = {k: v for k, v in kw.items() if not (isinstance(v, (tuple, list)) and len(v) == 0)}
         if rng.random() < 0.5 and "until" not in kw:
             kw.pop("count", None)
             kw["until"] = ds + datetime.timedelta(days=rng.randint(1, 900), seconds=rng.randint(0, 86399))
@@ -594,6 +730,55 @@ def oracle_malformed(ctx):
                 continue
             if out != "ValueError":
                 ctx.violation("rrulestr(%r, %s): %s instead of ValueError" % (m, opts, out), {"kind": "malformed", "text": m, "opts": sorted(opts), "outcome": out}, None)
+    # malformed / oversized date values in UNTIL, DTSTART, RDATE, EXDATE on all three paths: ValueError or (the parser is
+    # lenient) accepted, never another exception kind; the certainly-bad ones must be rejected
+    rng = ctx.subrng("oracle-baddates")
+    def bad_date():
+        k = rng.randint(0, 9)
+        if k == 0: return "9" * rng.randint(9, 40), False
+        if k == 1: return "%d" % rng.randint(10**15, 10**30) + rng.choice(["", "T000000", "Z"]), False
+        if k == 2: return "1997%02d%02dT%02d%02d%02d" % (rng.choice([0, 13, 99]), rng.randint(1, 28), 9, 0, 0), True
+        if k == 3: return "199709%02dT090000" % rng.choice([0, 32, 99]), True
+        if k == 4: return "19970902T%02d%02d%02d" % (rng.choice([24, 25, 99]), rng.choice([0, 60]), rng.choice([0, 61])), False
+        if k == 5:
+            v = rng.choice(["", "NOTADATE", "T", "Z", "-", "19970902T", "00000000T000000", "1E999999", "1E-999999"])
+            return v, v in ("", "NOTADATE", "00000000T000000")
+        if k == 6: return "19970902T090000" + rng.choice(["+9999", "-99:99", "+1E9", "." + "9" * 30, "Z" * 3]), False
+        if k == 7: return "%d-%d-%d" % (rng.randint(10000, 10**12), rng.randint(1, 12), rng.randint(1, 28)), False
+        if k == 8: return "0" * rng.randint(1, 30), False
+        return "".join(rng.choice("0123456789TZ:-+.,E") for _ in range(rng.randint(1, 25))), False
+    for i in range(ctx.budget(150, 4000)):
+        bad, certain = bad_date()
+        if "," in bad or ";" in bad or ":" in bad:
+            certain = False
+        where = rng.randint(0, 7)
+        good = "19970902T090000"
+        txt, opts = [("FREQ=DAILY;COUNT=2;UNTIL=" + bad, {}),                                   # fast path, bare value
+                     ("RRULE:FREQ=DAILY;UNTIL=" + bad, {}),                                      # fast path, RRULE line
+                     ("DTSTART:" + good + "\nRRULE:FREQ=DAILY;UNTIL=" + bad, {}),               # several lines, one rule
+                     ("DTSTART:" + bad + "\nRRULE:FREQ=DAILY;COUNT=2", {}),
+                     ("DTSTART:" + good + "\nRRULE:FREQ=DAILY;UNTIL=" + bad, {"forceset": True}),  # set path
+                     ("DTSTART:" + good + "\nRRULE:FREQ=DAILY;COUNT=2\nRDATE:" + good + "," + bad, {}),
+                     ("DTSTART:" + good + "\nRRULE:FREQ=DAILY;COUNT=2\nEXDATE:" + bad, {}),
+                     ("DTSTART:" + good + "\nRRULE:FREQ=DAILY;COUNT=2\nEXRULE:FREQ=DAILY;UNTIL=" + bad, {"compatible": True})][where]
+        if any(c.isspace() for c in bad):
+            continue
+        ctx.case((txt, tuple(sorted(opts)), "baddate"), nontrivial=False); ctx.count("malformed_date_values")
+        try:
+            with warnings.catch_warnings():
+                warnings.simplefilter("ignore")
+                limited(lambda: R.rrulestr(txt, **opts), 2.0)
+            out = "accepted"
+        except Timeout:
+            continue
+        except ValueError:
+            out = "ValueError"
+        except Exception as ex:
+            out = exc_kind(ex)
+        ctx.count("baddate_" + out)
+        if out not in ("ValueError", "accepted") or (certain and out == "accepted"):
+            ctx.violation("rrulestr(%r, %s) with a malformed date value: %s instead of ValueError" % (txt, opts, out),
+                          {"kind": "malformed", "text": txt, "opts": sorted(opts), "outcome": out}, None)
 
 
 def oracle(ctx):
@@ -603,14 +788,19 @@ def oracle(ctx):
     oracle_sets(ctx)
     oracle_malformed(ctx)
     rng = ctx.subrng("oracle")
-    n = ctx.budget(400, 10000)
+    n = ctx.budget(330, 10000)
     shown = 0
     # rules on which the model and str() disagreed come first (failing-input search after a correspondence mismatch)
     seeded = [m["rule"] for m in getattr(ctx, "c13_str_mismatch_rules", [])][:200]
     for i in range(n):
         if ctx.escalated and len(ctx.violations) >= 5:
             ctx.count("search_stopped_after_failing_inputs_found"); break
-        freq, ds, kw = seeded.pop() if seeded else gen_kwargs(rng)
+        if i == 0:
+            # the committed witness of D-C13-empty-by-list is evaluated on every run
+            import datetime as _dt
+            freq, ds, kw = R.YEARLY, _dt.datetime(2020, 1, 1, 9), {"count": 4, "bymonthday": ()}
+        else:
+            freq, ds, kw = seeded.pop() if seeded else gen_kwargs(rng)
         try:
             r = build(freq, ds, kw)
             base = head(iter(r))
@@ -635,7 +825,22 @@ def oracle(ctx):
         if shown < 3:
             ctx.sample({"str(rule)": s, "first": [d.isoformat() for d in base[:3]]}); shown += 1
         if got != base:
-            ctx.violation("rrulestr(str(rule)) generates different occurrences", {"kind": "roundtrip", "text": s, "kwargs": repr(kw), "freq": freq, "dtstart": ds.isoformat()},
+            case = {"kind": "roundtrip", "text": s, "kwargs": repr(kw), "freq": freq, "dtstart": ds.isoformat()}
+            empty_by = sorted(k for k, v in kw.items() if k.startswith("by") and isinstance(v, (tuple, list)) and len(v) == 0)
+            if empty_by:
+                # D-C13-empty-by-list is claimed only when (1) the model agrees with the implementation on this very rule, for
+                # str() and for the parse of that text, and (2) the reparsed occurrences are exactly those of the same
+                # keyword arguments WITHOUT the empty parts (i.e. the difference is the re-derived default and nothing else)
+                case["empty_by"] = empty_by
+                try:
+                    res, _ = impl_parse(s)
+                    m = ctx.driver([str_request(r), "rrs.parse 0000000 %s" % hexs(s)])
+                    case["model_agrees_with_implementation"] = bool(m[0] == "ok " + hexs(s) and canon_impl(res, m[1]) == m[1])
+                    without = build(freq, ds, {k: v for k, v in kw.items() if k not in empty_by})
+                    case["explained_by_default_of_dropped_part"] = bool(head(iter(without)) == got)
+                except Exception as ex:
+                    case["model_agrees_with_implementation"] = False; case["matcher_error"] = repr(ex)
+            ctx.violation("rrulestr(str(rule)) generates different occurrences", case,
                           {"rule": [d.isoformat() for d in base[:4]], "reparsed": [d.isoformat() for d in got[:4]]})
             continue
         # (2) spellings mean the same as the keyword construction
@@ -689,22 +894,14 @@ def oracle(ctx):
             except (ValueError, Timeout):
                 ctx.count("skipped_ctor_or_slow")
 
-def folded_tzid(case):
-    """D-C13-folded-tzid: unfold, and a fold inside the TZID parameter of a property line"""
-    if case.get("kind") != "options" or not ("unfold" in case.get("opts", {}) or "compatible" in case.get("opts", {})):
-        return False
-    phys = case["text"].replace("\r\n", "\n").split("\n")
-    for i, l in enumerate(phys):
-        if not l.startswith(" ") and ";" in l and ":" not in l and i + 1 < len(phys) and phys[i + 1].startswith(" "):
-            logical = l
-            j = i + 1
-            while j < len(phys) and phys[j].startswith(" "):
-                logical += phys[j][1:]; j += 1
-            if ";TZID=" in logical.upper().split(":")[0]:
-                return True
-    return False
+def empty_by_list(case):
+    """D-C13-empty-by-list, tight: an empty BY sequence among the arguments, the model reproduces the implementation's str()
+    and parse on this rule, and the reparsed occurrences are those of the arguments without the empty parts"""
+    return (case.get("kind") == "roundtrip" and bool(case.get("empty_by"))
+            and case.get("model_agrees_with_implementation") is True
+            and case.get("explained_by_default_of_dropped_part") is True)
 
-KNOWN = {"D-C13-folded-tzid": lambda v: folded_tzid(v["case"])}
+KNOWN = {"D-C13-empty-by-list": lambda v: empty_by_list(v["case"])}
 
 def replay(ctx, payload):
     """re-evaluate the recorded failing case on the current tree (option cases are rebuilt from the recorded rule,
@@ -727,9 +924,9 @@ def replay(ctx, payload):
         def violation(self, what, c, detail): self.violations.append({"what": what, "case": c, "detail": detail})
     stub = Stub()
     scen = option_scenarios(freq, ds, kw)[case["scenario"]]
-    for attempt in range(8):          # folding positions are random; the other paths are deterministic
+    for attempt in range(30):         # folding positions are random; the other paths are deterministic
         run_option_case(stub, R, freq, ds, kw, case["scenario"], scen, random.Random(attempt))
-    failing = [x for x in stub.violations if x["case"]["path"] == case["path"] and not folded_tzid(x["case"])]
+    failing = [x for x in stub.violations if x["case"]["path"] == case["path"]]
     for x in failing[:1]:
         print("still failing:", x["what"], "| text:", repr(x["case"]["text"]), "| options:", x["case"]["opts"])
     return not failing
